@@ -1,6 +1,7 @@
 (** Proofs about account resolution (C05-C08).  Everything is parametric in
     [find_pda]. *)
 From SplVerif Require Import Lib.Base Resolution.Seeds Resolution.SeedsProofs Resolution.Account.
+From Coq Require Import Permutation.
 Local Open Scope N_scope.
 
 Section Proofs.
@@ -452,3 +453,63 @@ Proof.
   apply IH. unfold kd_of in *. rewrite !map_app, Hkd. cbn [map]. injection Hp as -> ->. reflexivity.
 Qed.
 End Proofs.
+
+(** a pool with one info per key: any permutation finds the same info for every key *)
+Definition distinct_keys (pool : list info) : Prop := NoDup (map i_key pool).
+
+Lemma find_in_distinct pool k x : distinct_keys pool -> In x pool -> i_key x = k ->
+  find (fun y => key_eqb (i_key y) k) pool = Some x.
+Proof.
+  induction pool as [|y pool IH]; intros Hd Hin Hk; [inversion Hin|].
+  cbn [find]. unfold distinct_keys in Hd. cbn [map] in Hd. inversion Hd as [|? ? Hny Hd']; subst.
+  destruct Hin as [->|Hin].
+  - now rewrite key_eqb_refl.
+  - destruct (key_eqb (i_key y) (i_key x)) eqn:E.
+    + apply key_eqb_eq in E. exfalso. apply Hny. rewrite E. now apply in_map.
+    + now apply IH.
+Qed.
+Lemma find_none_perm pool pool' k : Permutation pool pool' ->
+  find (fun y => key_eqb (i_key y) k) pool = None -> find (fun y => key_eqb (i_key y) k) pool' = None.
+Proof.
+  intros Hp Hn. destruct (find _ pool') as [x|] eqn:E; [|reflexivity].
+  apply find_some in E as [Hin Hk]. apply Permutation_sym in Hp.
+  pose proof (Permutation_in _ Hp Hin) as Hin'.
+  pose proof (find_none _ _ Hn _ Hin') as Hc. cbv beta in Hc. congruence.
+Qed.
+Theorem permuted_pool_equiv pool pool' :
+  distinct_keys pool -> Permutation pool pool' -> pools_equiv pool pool'.
+Proof.
+  intros Hd Hp k. unfold pools_equiv.
+  assert (Hd' : distinct_keys pool').
+  { unfold distinct_keys in *. eapply Permutation_NoDup; [|exact Hd]. now apply Permutation_map. }
+  destruct (find (fun x => key_eqb (i_key x) k) pool) as [x|] eqn:E.
+  - apply find_some in E as [Hin Hk]. apply key_eqb_eq in Hk.
+    rewrite (find_in_distinct pool' k x Hd' (Permutation_in _ Hp Hin) Hk). reflexivity.
+  - now rewrite (find_none_perm pool pool' k Hp E).
+Qed.
+
+(** C07: consequences of the iff — single mutations of an accepted list *)
+Section Mut.
+Variable find_pda : list (list byte) -> key -> option key.
+
+Theorem check_rejects_missing_account cfgs ix pid accounts :
+  cfgs <> [] -> check_accounts find_pda cfgs ix pid accounts = Ok tt ->
+  forall shorter, (length shorter < length cfgs)%nat -> check_accounts find_pda cfgs ix pid shorter <> Ok tt.
+Proof.
+  intros _ _ shorter Hs E. apply check_accounts_iff in E. lia.
+Qed.
+
+(** flipping a flag (or changing the key) of the trailing account at a config's position,
+    while that config still resolves to the same meta, is rejected *)
+Theorem check_rejects_changed_triple cfgs ix pid accounts i c m a :
+  (length cfgs <= length accounts)%nat -> nth_error cfgs i = Some c ->
+  resolve find_pda c ix pid (info_getter accounts) = Ok m ->
+  nth_error accounts (length accounts - length cfgs + i) = Some a ->
+  (i_key a <> m_key m \/ i_signer a <> m_signer m \/ i_writable a <> m_writable m) ->
+  check_accounts find_pda cfgs ix pid accounts <> Ok tt.
+Proof.
+  intros Hl Hc Hr Ha Hne E. apply check_accounts_iff in E as [_ E].
+  destruct (E i c Hc) as (m' & a' & Hr' & Ha' & Hk & Hs & Hw).
+  rewrite Hr in Hr'. injection Hr' as <-. rewrite Ha in Ha'. injection Ha' as <-. tauto.
+Qed.
+End Mut.
